@@ -769,6 +769,10 @@ func (h *harness) items() []item {
 	add("server", "websocket", h.rec.Pick(100, 1000))
 	add("client", "websocket", h.rec.Pick(60, 600))
 	add("both", "concurrent", h.rec.Pick(16, 96))
+	add("server", "cross-message", 300*q)
+	add("client", "cross-message", 150*q)
+	add("server", "long-list", listItems())
+	add("client", "long-list", listItems())
 	// interleave so that every shard gets a bit of everything
 	return it
 }
@@ -915,6 +919,20 @@ func (h *harness) runItem(idx int, it item) {
 		h.websocketItem(d, r)
 	case "concurrent":
 		h.concurrentItem(d, r)
+	case "cross-message":
+		d.Cfg = randCfg(r, it.role)
+		var in []byte
+		if it.role == "server" {
+			in, d.Expect = genCrossServer(r, d.Cfg)
+		} else {
+			in, d.Expect = genCrossClient(r, d.Cfg)
+		}
+		h.checkString(d, in, nil)
+	case "long-list":
+		var in []byte
+		d.Cfg, in, d.Expect = listInput(it.role, it.k, r)
+		h.rec.Seen("list_shape_"+it.role, d.Expect.Detail)
+		h.checkString(d, in, nil)
 	}
 }
 
